@@ -18,6 +18,19 @@ Step C  THE PROPERTY IS OBSERVED HERE: a fixed battery plus random batteries are
         re-rendered at the end of the in-process run equals its first rendering and the rendering
         obtained without any history (isolated child / fresh interpreter); the URLs written for a
         package-sourced dependency are <lib_prefix>/<name>[-<version>]/<file> of that dependency.
+        Items of kind "prog" are small PROGRAMS over the public construction / mutation API (Tag, the
+        tags / svg functions, JSX components, TagList, attrs[...] / update / del, add_class / remove_class /
+        has_class / add_style, append / extend / insert / +=, copy / deepcopy / tagify, css, consolidate_attrs)
+        whose arguments come from pools of values that are equal under == / hash but of different types
+        (True / 1 / 1.0, False / 0 / 0.0 / -0.0, text as str / str subclass / HTML / HTML subclass, -1 / -2),
+        attribute names that meet after normalisation, class tokens that are prefixes / substrings / repeats
+        of one another with several tokens per argument, dependencies with typed script / stylesheet / meta
+        attribute values, and values of unsupported types (fault paths; the program goes on).  Only
+        determinism is asked of them: same observation (texts, dependency order, query results, error
+        classes) in every process, after every history, and when built again.
+        After a difference has been seen (never on a clean run) the first report of each kind is explained:
+        the texts instead of digests, whether the item alone differs between two hash seeds, and otherwise
+        which single earlier item (found by halving the history in fresh interpreters) changes it.
 """
 from __future__ import annotations
 
@@ -1063,6 +1076,12 @@ def explain(pool: ThreadPoolExecutor, items: list[dict], it: dict, hashseed: str
     if alone is None:
         return out
     base = W.strip_raw(alone)
+    # the item itself, built and rendered once before (under another id)
+    twin = dict(it, id=it["id"] + "#the-same-construction-before")
+    again = one_run([twin], it, hashseed)
+    if again is not None and W.strip_raw(again) != base:
+        out["history"], out["after_history"] = [twin], again
+        return out
     cands = list(items)
     full = one_run(cands, it, hashseed)
     if full is None or W.strip_raw(full) == base:
@@ -1269,13 +1288,19 @@ def run(ctx: Ctx, only_items: list[dict] | None = None) -> None:
                 "14 dependencies with colliding names flat, nested, reversed and inside tagifiable objects, every "
                 "head_content payload of a 17-entry pool with equal / different / metadata-only-different content, "
                 "8 attributes in 5 orders, texts with duplicated and interleaved serialised dependencies, "
-                "_resolve_dependencies and unique() inputs) plus random batteries from the seeded PRNG (random trees "
+                "_resolve_dependencies and unique() inputs; hand-written programs over the public construction / mutation API: "
+                "the same attribute / child / css value / dependency attribute / JSX prop written with ==-equal values of "
+                "different types, one construction per item; the same text as str / str subclass / HTML / HTML subclass; "
+                "attribute names that meet after normalisation; class strings whose tokens are prefixes / substrings / "
+                "repeats of one another under remove_class / add_class / has_class with one and several names; style and "
+                "children helpers; fault steps) plus random programs of 1..10 steps over the same pools "
+                "(profiles class / typed / mixed / jsx) plus random batteries from the seeded PRNG (random trees "
                 "depth <= 4 with dependencies, MetadataNodes, head_content nodes and tagifiable objects; tag-only "
                 "documents over the head_content pool; texts with 2..16 serialised dependencies drawn with repetition; "
                 "dependency lists; string lists; package-sourced dependencies (htmltools/lib) with colliding names and different versions, colliding (name, version) with different subdirs, one document per item, rendered under several lib_prefix / include_version settings) plus, bounded-exhaustively, every ordered pair (thorough: triple) of pool payloads in one document.  Every battery is built and rendered in-process and in N interpreter "
                 "processes with distinct PYTHONHASHSEED (0, 1, random, 4294967295, PRNG-drawn) each in its own "
                 "permutation of the items; in addition every item is re-rendered in-process at the end of the run and rendered without history (in a forked child of a process that rendered nothing; a sample, all fixed package-sourced items included, in a fresh interpreter given that item only).  An evaluation = one item in one process; non-trivial = the item has a "
-                "dependency / head_content / >= 2 attributes or is a text / list item; distinct = (item, process).")
+                "dependency / head_content / >= 2 attributes or is a text / list / program item; distinct = (item, process).")
     ctx.assumptions = [
         "process-level determinism is observed on the sampled hash seeds and orders, not proved (DESIGN C18: PARTIAL)",
         "SHA-1 injectivity is an explicit premise of C18_distinct* (no collision among the battery's contents is checked)",
@@ -1303,7 +1328,7 @@ def run(ctx: Ctx, only_items: list[dict] | None = None) -> None:
                 items = only_items
             else:
                 items = fixed + rand_battery(rng, ctx.budget(800, 2500), f"rand{b}")
-                items += [rand_prog_item(rng, f"prog{b}:{i}") for i in range(ctx.budget(400, 1500))]
+                items += [rand_prog_item(rng, f"prog{b}:{i}") for i in range(ctx.budget(300, 1500))]
                 if b == 0:
                     items = items + exhaustive_hc_items(ctx.budget(2, 3))
             configs = [(seeds[b * per + j], rng.randrange(1, 2**31)) for j in range(per)]
